@@ -4,6 +4,7 @@ mod queries;
 mod race;
 mod hops;
 mod provx;
+mod orschema;
 mod sched;
 mod c01;
 mod c02;
